@@ -128,8 +128,8 @@ impl Engine {
     }
 }
 
-pub const KINDS: [&str; 11] = ["tracked", "plain", "string", "large", "zstkey", "zstval", "nodrop", "zstboth", "tagged", "path", "zstdrop"];
-pub const NKINDS: u8 = 11;
+pub const KINDS: [&str; 12] = ["tracked", "plain", "string", "large", "zstkey", "zstval", "nodrop", "zstboth", "tagged", "path", "zstdrop", "fattag"];
+pub const NKINDS: u8 = 12;
 
 /// Compiled capacities for single-container engines.
 pub const CAPS: [usize; 12] = [0, 1, 2, 3, 4, 6, 9, 17, 33, 70, 32, 64];
